@@ -565,6 +565,25 @@ theorem filterLinesStdAlpha_spec (strategy bpp ab : Nat) (hb : 0 < bpp) (hab : a
           rw [hkeep.1, hprev, hft, hfl]
           exact hr2
 
+/-- **The heuristic strategies' trial loop**: they run `filter_line` for one candidate filter after
+    the other on the *same, mutable* copy of the row, so the row that is finally stored has gone through
+    the alpha rewrite of every candidate up to the chosen one. Whatever the list of candidates and
+    wherever the loop stops, the stored row is a kept version of the original row. -/
+theorem optimizeAlpha_chain_rowKeep (bpp cb m : Nat) (prev : Bytes) (hb : 0 < bpp) (hcb : cb ≤ bpp) :
+    ∀ (fts : List Nat) (data : Bytes), data.length = m * bpp → prev.length = data.length →
+      (fts.foldl (fun d ft => optimizeAlpha ft bpp d prev cb) data).length = data.length ∧
+      RowKeep cb bpp data (fts.foldl (fun d ft => optimizeAlpha ft bpp d prev cb) data) := by
+  intro fts
+  induction fts with
+  | nil => intro data _ _; exact ⟨rfl, RowKeep_refl _ _ _⟩
+  | cons ft fts ih =>
+    intro data hd hp
+    simp only [List.foldl_cons]
+    obtain ⟨hl1, hk1⟩ := optimizeAlpha_rowKeep ft bpp cb m data prev hb hcb hd hp
+    obtain ⟨hl2, hk2⟩ := ih (optimizeAlpha ft bpp data prev cb) (by rw [hl1, hd]) (by rw [hl1, hp])
+    exact ⟨by rw [hl2, hl1], RowKeep_trans hk1 hk2⟩
+
+
 /-- Non-vacuity: a Sub rewrite of a transparent pixel between two opaque ones. -/
 example : optimizeAlphaPixels 1 3 [[1,2,3,255], [9,9,9,0], [4,5,6,255]] [[0,0,0,0],[0,0,0,0],[0,0,0,0]]
     = [[1,2,3,255], [1,2,3,0], [4,5,6,255]] := by decide
